@@ -28,6 +28,7 @@ pub struct Norm {
     pub iter_vec: Vec<String>,
     pub deref_params: Vec<String>,
     pub entry_place: bool,
+    pub subst: Vec<(String, Expr)>,
     pub keyed_mut_iter: Vec<(String, String, String)>,
     lvalue_depth: usize,
     tmp_counter: usize,
@@ -356,6 +357,7 @@ impl Norm {
             iter_vec: strs("iter_vec"),
             deref_params: strs("deref_params"),
             entry_place: req["entry_place"].as_bool().unwrap_or(false),
+            subst: strs("subst").iter().filter_map(|x| x.split_once(':').map(|(a, b)| (a.chars().filter(|c| !c.is_whitespace()).collect::<String>(), syn::parse_str::<Expr>(b).expect("subst target")))).collect(),
             keyed_mut_iter: strs("keyed_mut_iter")
                 .iter()
                 .filter_map(|x| {
@@ -760,6 +762,14 @@ impl VisitMut for Norm {
     }
 
     fn visit_expr_mut(&mut self, e: &mut Expr) {
+        // N11c (slices): an expression of the enclosing function that the slice receives as a parameter (`subst=self.tasks:rtasks`)
+        if !self.subst.is_empty() && matches!(e, Expr::Field(_) | Expr::Path(_)) {
+            let t: String = e.to_token_stream().to_string().chars().filter(|c| !c.is_whitespace()).collect();
+            if let Some((_, to)) = self.subst.iter().find(|(a, _)| *a == t) {
+                *e = to.clone();
+                return;
+            }
+        }
         // pre-order rewrites that change the shape of sub-expressions
         if let Expr::Macro(em) = e {
             let sp = em.mac.path.span();
@@ -1253,8 +1263,9 @@ impl VisitMut for Norm {
                         *e = ne;
                         self.log("N7e-then_some", sp);
                     }
-                    "retain" if mc.args.len() == 1 => {
-                        // N8: V.retain(|p| B) => index loop with the same visiting order and the same survivors
+                    "retain" | "retain_mut" if mc.args.len() == 1 => {
+                        // N8: V.retain(|p| B) / V.retain_mut(|p| B) => index loop with the same visiting order and the same survivors
+                        let is_mut = mc.method == "retain_mut";
                         if let Expr::Closure(c) = &mc.args[0] {
                             if c.inputs.len() == 1 && !body_has_return(&c.body) {
                                 let v = &mc.receiver;
@@ -1262,6 +1273,7 @@ impl VisitMut for Norm {
                                 let i = self.fresh("i");
                                 let keep = self.fresh("keep");
                                 let bind: Stmt = match &c.inputs[0] {
+                                    Pat::Ident(pi) if is_mut => { let id = &pi.ident; parse_quote!(let #id = &mut #v[#i];) }
                                     Pat::Ident(pi) => { let id = &pi.ident; parse_quote!(let #id = &#v[#i];) }
                                     Pat::Reference(r) => { let inner = &r.pat; parse_quote!(let #inner = #v[#i];) }
                                     other => { let o = other; parse_quote!(let #o = &#v[#i];) }
@@ -1464,6 +1476,22 @@ fn block_has_continue(b: &Block) -> bool {
     v.0
 }
 
+fn expr_has_continue(e: &Expr) -> bool {
+    struct V(bool);
+    impl<'ast> syn::visit::Visit<'ast> for V {
+        fn visit_expr_continue(&mut self, _: &'ast ExprContinue) {
+            self.0 = true;
+        }
+        fn visit_expr_for_loop(&mut self, _: &'ast ExprForLoop) {}
+        fn visit_expr_while(&mut self, _: &'ast ExprWhile) {}
+        fn visit_expr_loop(&mut self, _: &'ast ExprLoop) {}
+        fn visit_expr_closure(&mut self, _: &'ast ExprClosure) {}
+    }
+    let mut v = V(false);
+    syn::visit::Visit::visit_expr(&mut v, e);
+    v.0
+}
+
 /// every `continue` of the chain is the last statement of one of its branches (and at least one branch has one)
 fn chain_tail_continue_only(i: &ExprIf) -> bool {
     fn branch_ok(b: &Block, found: &mut bool) -> bool {
@@ -1565,6 +1593,60 @@ fn eliminate_continue(stmts: Vec<Stmt>) -> std::result::Result<Vec<Stmt>, String
                 let e = init.expr;
                 let ne: Expr = parse_quote!(if let #pat = #e { #(#rest)* } else #d);
                 out.push(Stmt::Expr(ne, None));
+                return Ok(out);
+            }
+            unreachable!();
+        }
+        // a trailing `if`/`if let` (the last statement of the loop body): `continue` inside it skips the rest of ITS block only,
+        // so the elimination recurses into its branches
+        let is_last = iter.len() == 0;
+        if is_last {
+            if let Stmt::Expr(Expr::If(i), semi) = &st {
+                if expr_has_continue(&Expr::If(i.clone())) && !chain_tail_continue_only(i) {
+                    let mut i2 = i.clone();
+                    fn rec(i: &mut ExprIf) -> std::result::Result<(), String> {
+                        let stmts = std::mem::take(&mut i.then_branch.stmts);
+                        i.then_branch.stmts = eliminate_continue(stmts)?;
+                        if let Some((_, e)) = &mut i.else_branch {
+                            match &mut **e {
+                                Expr::If(n) => rec(n)?,
+                                Expr::Block(b) => {
+                                    let st = std::mem::take(&mut b.block.stmts);
+                                    b.block.stmts = eliminate_continue(st)?;
+                                }
+                                _ => {}
+                            }
+                        }
+                        Ok(())
+                    }
+                    rec(&mut i2)?;
+                    out.push(Stmt::Expr(Expr::If(i2), *semi));
+                    return Ok(out);
+                }
+            }
+        }
+        // `match S { P => continue, Q => E, .. }  REST`  =>  `match S { P => {}, Q => { E; REST }, .. }`
+        let is_match_continue = match &st {
+            Stmt::Expr(Expr::Match(m), _) => {
+                m.arms.iter().any(|a| matches!(&*a.body, Expr::Continue(c) if c.label.is_none()))
+                    && m.arms.iter().all(|a| matches!(&*a.body, Expr::Continue(c) if c.label.is_none()) || !expr_has_continue(&a.body))
+            }
+            _ => false,
+        };
+        if is_match_continue {
+            if let Stmt::Expr(Expr::Match(mut m), _) = st {
+                let rest: Vec<Stmt> = iter.collect();
+                let rest = eliminate_continue(rest)?;
+                for a in m.arms.iter_mut() {
+                    if matches!(&*a.body, Expr::Continue(_)) {
+                        a.body = Box::new(parse_quote!({}));
+                    } else {
+                        let b = a.body.clone();
+                        a.body = Box::new(parse_quote!({ #b; #(#rest)* }));
+                    }
+                    a.comma = Some(Default::default());
+                }
+                out.push(Stmt::Expr(Expr::Match(m), None));
                 return Ok(out);
             }
             unreachable!();
